@@ -110,10 +110,10 @@ func (p *fakeProducer) Names() []string {
 	sort.Strings(res)
 	return res
 }
-func (p *fakeProducer) NotFlushedSizeEst() int                              { return 0 }
-func (p *fakeProducer) Flush(id []byte) error                               { return nil }
+func (p *fakeProducer) NotFlushedSizeEst() int                               { return 0 }
+func (p *fakeProducer) Flush(id []byte) error                                { return nil }
 func (p *fakeProducer) Initialize(names []string, id []byte) ([]byte, error) { return id, nil }
-func (p *fakeProducer) Close() error                                        { return nil }
+func (p *fakeProducer) Close() error                                         { return nil }
 
 var (
 	_ kvdb.DBProducer     = (*fakeProducer)(nil)
